@@ -8,6 +8,9 @@
 
 namespace mc {
 
+// libtins' own error types: everything derived from exception_base, plus small_uint's value_too_large (derives from std::exception)
+inline bool tins_exc(const std::exception& e) { return dynamic_cast<const Tins::exception_base*>(&e) != 0 || dynamic_cast<const Tins::value_too_large*>(&e) != 0; }
+
 template <int N> struct rank : rank<N - 1> {};
 template <> struct rank<0> {};
 
